@@ -617,6 +617,8 @@ class Gen:
         d = self.rnd.choice('|!+/=')
         self.w('\\verb' + d)
         self.path.append('verb')
+        if self.rnd.random() < .3:
+            self.w(self.rnd.choice([' ', '  ']))      # blanks next to the delimiter are part of the text
         self.word()
         if self.rnd.random() < .3:
             self.w(' ')
